@@ -1000,35 +1000,35 @@ def _expand_when_stmt_element(
 
             new_elements.append(Goto(label=case_label_names[case_idx]))
 
-            # Case groups
-            new_elements.append(Label(name=case_label_names[case_idx]))
-            new_elements.append(MergeHeads(fork_uid=cases_fork_uid))
-            new_elements.append(CatchPatternFailure(label=None))
-            new_elements.append(EndScope(name=scope_label_name))
-            new_elements.extend(
-                expand_elements(element.then_elements[case_idx], flow_configs)
-            )
-            new_elements.append(Goto(label=end_label_name))
+        # Case groups
+        new_elements.append(Label(name=case_label_names[case_idx]))
+        new_elements.append(MergeHeads(fork_uid=cases_fork_uid))
+        new_elements.append(CatchPatternFailure(label=None))
+        new_elements.append(EndScope(name=scope_label_name))
+        new_elements.extend(
+            expand_elements(element.then_elements[case_idx], flow_configs)
+        )
+        new_elements.append(Goto(label=end_label_name))
 
-            # Failure case groups
-            new_elements.append(Label(name=failure_case_label_names[case_idx]))
-            new_elements.append(WaitForHeads(number=len(group_label_names[case_idx])))
-            new_elements.append(CatchPatternFailure(label=None))
-            new_elements.append(Goto(label=else_label_name))
+        # Failure case groups
+        new_elements.append(Label(name=failure_case_label_names[case_idx]))
+        new_elements.append(WaitForHeads(number=len(group_label_names[case_idx])))
+        new_elements.append(CatchPatternFailure(label=None))
+        new_elements.append(Goto(label=else_label_name))
 
-        # Else group
-        new_elements.append(Label(name=else_label_name))
-        new_elements.append(WaitForHeads(number=len(group_label_names)))
-        if element.else_elements is None:
-            new_elements.append(Abort())
-        else:
-            new_elements.append(Goto(label=else_statement_label_name))
+    # Else group
+    new_elements.append(Label(name=else_label_name))
+    new_elements.append(WaitForHeads(number=len(group_label_names)))
+    if element.else_elements is None:
+        new_elements.append(Abort())
+    else:
+        new_elements.append(Goto(label=else_statement_label_name))
 
-            new_elements.append(Label(name=else_statement_label_name))
-            new_elements.extend(expand_elements(element.else_elements, flow_configs))
+        new_elements.append(Label(name=else_statement_label_name))
+        new_elements.extend(expand_elements(element.else_elements, flow_configs))
 
-        # End label
-        new_elements.append(Label(name=end_label_name))
+    # End label
+    new_elements.append(Label(name=end_label_name))
 
     return new_elements
 
